@@ -50,6 +50,15 @@ PARAMS = {
 }
 
 
+# alternative keyword parameterisations (same shapes / dtypes) of distributions: (kwargs builder A, kwargs builder B)
+KW_ALT = {
+    "bernoulli": (lambda a: {"probs": jnp.clip(_sig(a), 0.05, 0.95)}, lambda a: {"logits": jnp.clip(a, -2.0, 2.0)}),
+    "poisson": (lambda a: {"rate": 1.0 + _sig(a)}, lambda a: {"log_rate": 0.3 * jnp.tanh(a)}),
+    "normal": (lambda a: {"loc": a, "scale": 1.0 + 0.0 * a}, lambda a: {"scale": 1.0 + 0.0 * a, "loc": a}),
+    "exponential": (lambda a: {"rate": 0.5 + _sig(a)}, lambda a: {"rate": 0.5 + _sig(a)}),
+}
+
+
 # ------------------------------------------------------------------ tracer distributions
 
 
@@ -119,6 +128,11 @@ def gen_pf(rng, depth=2, dists=None, max_len=3, allow=("site", "scan", "cond", "
         if k == "site":
             d = rng.choice(dists)
             st = {"k": "site", "d": d, "mode": rng.choice(["sample", "sample", "call"])}
+            if rng.random() < 0.35 and any(x in dists for x in ("normal", "poisson", "exponential")) and dists is not None \
+                    and set(dists) >= set(REAL_CONT):
+                # a site written with keyword parameters (one of two alternative parameterisations)
+                st = {"k": "site", "d": rng.choice(["bernoulli", "bernoulli", "poisson", "poisson", "normal", "exponential"]), "mode": "kw",
+                      "alt": rng.randint(0, 1)}
             if in_mv and d == "categorical":
                 st["mode"] = "sample"
             if rng.random() < 0.2 and not in_mv:
@@ -256,9 +270,12 @@ def build_body(body, table, fault=None):
                 counter["n"] += 1
             k = st["k"]
             if k == "site":
-                d = table[st["d"]]
-                p = PARAMS[st["d"]](acc)
-                if st["mode"] == "call":
+                d = table.get(st["d"])
+                p = PARAMS[st["d"]](acc) if st["mode"] != "kw" else None
+                if st["mode"] == "kw":
+                    d = getattr(genjax, st["d"])
+                    v = d.sample(**KW_ALT[st["d"]][st.get("alt", 0)](acc))
+                elif st["mode"] == "call":
                     v = d(*p)  # GFI.__call__ at top level
                 elif st.get("ss"):
                     v = d.sample(*p, sample_shape=tuple(st["ss"]))
